@@ -67,12 +67,14 @@ def rule_text(u: dict, npad: int, form: str = 'block'):
         m.append('fragment ' + {'isf': '[ is-fragment ]', 'first': '[ first-fragment ]'}[u['frag']])
     if u['label'] != 'none':
         m.append('flow-label =100000')
-    then = {'discard': 'discard', 'rate': 'rate-limit 9600', 'redirect': 'redirect 65500:12345', 'mark': 'mark 12', 'sample': 'action sample', 'terminal': 'action terminal'}[u['action']]
+    thens = {'discard': ['discard'], 'rate': ['rate-limit 9600'], 'redirect': ['redirect 65500:12345'], 'mark': ['mark 12'], 'sample': ['action sample'], 'terminal': ['action terminal'],
+             'discard-sample': ['discard', 'action sample'], 'redirect-mark': ['redirect 65500:12345', 'mark 12']}[u['action']]
+    then = ' '.join(thens)
     if form.endswith('reversed'):
         m.reverse()
     if form.startswith('block'):
         rd = 'rd 65000:1; ' if u['rd'] else ''
-        return 'flow', 'route { ' + rd + 'match { ' + ' '.join(x + ';' for x in m) + ' } then { ' + then + '; } }', ''
+        return 'flow', 'route { ' + rd + 'match { ' + ' '.join(x + ';' for x in m) + ' } then { ' + ' '.join(x + ';' for x in thens) + ' } }', ''
     rd = 'rd 65000:1 ' if u['rd'] else ''
     if form == 'line':
         return 'flow', 'route ' + rd + ' '.join(m) + ' ' + then, ''
